@@ -6,7 +6,9 @@ package main
 import (
 	"context"
 	"fmt"
+	pb "github.com/marekgalovic/anndb/protobuf"
 	"github.com/marekgalovic/anndb/storage"
+	uuid "github.com/satori/go.uuid"
 	"google.golang.org/grpc/codes"
 	"google.golang.org/grpc/status"
 	"strings"
@@ -163,6 +165,9 @@ func runC17(a *args) error {
 		}
 		d.c.close()
 	}
+	if a.replay == "" {
+		c17ListSizes(r.fork(), st)
+	}
 	var items []string
 	var kept []szCase
 	for _, c := range cases {
@@ -195,4 +200,49 @@ func runC17(a *args) error {
 		return err
 	}
 	return writeJSON(a.out+"/stats.json", st)
+}
+
+// c17ListSizes: the catalogue's listing with sizes (what `datasets list` shows): several datasets of different sizes,
+// partitions on the asked node and on another one; every listed dataset carries the item count of its own partitions.
+func c17ListSizes(r *rng, st *stats) {
+	c := newSimCluster([]uint64{1, 2})
+	defer c.close()
+	want := map[string]uint64{}
+	for k := 0; k < 5; k++ {
+		meta := newDatasetMeta(r, 2, pb.Space_Euclidean, [][]uint64{{1}, {2}}, 1)
+		if err := c.createDataset(meta); err != nil {
+			st.count("list-sizes:setup-failed")
+			return
+		}
+		id := uuid.FromBytesOrNil(meta.Id)
+		n := 3*k + 1
+		for i := 0; i < n; i++ {
+			ctx, cancel := context.WithTimeout(context.Background(), 2*time.Second)
+			err := c.nodes[1].datasets[id].Insert(ctx, uuidFrom(r), []float32{float32(i), float32(k)}, nil)
+			cancel()
+			if err != nil {
+				st.count("list-sizes:setup-failed")
+				return
+			}
+		}
+		want[id.String()] = uint64(n)
+	}
+	for round := 0; round < 3; round++ {
+		ctx, cancel := context.WithTimeout(context.Background(), 3*time.Second)
+		ds, err := c.nodes[1].dm.List(ctx, true)
+		cancel()
+		if err != nil {
+			st.ImplFailures = append(st.ImplFailures, implFailure{Case: -1, What: "List with sizes failed on a healthy two-node cluster: " + err.Error(), Key: "list-sizes-error", Input: nil})
+			return
+		}
+		got := map[string]uint64{}
+		for _, d := range ds {
+			got[uuid.FromBytesOrNil(d.GetId()).String()] = d.GetSize()
+		}
+		st.count("list-sizes")
+		if fmt.Sprint(got) != fmt.Sprint(want) {
+			st.ImplFailures = append(st.ImplFailures, implFailure{Case: -1, What: fmt.Sprintf("List with sizes reports %v, the datasets hold %v items", got, want), Key: "list-sizes-not-own-sum", Input: map[string]interface{}{"datasets": len(want)}})
+			return
+		}
+	}
 }
